@@ -407,7 +407,8 @@ func (c *Client) send(dest net.Addr, msg *dhcpv6.Message) (<-chan *dhcpv6.Messag
 
 	ch := make(chan *dhcpv6.Message, c.bufferCap)
 	done := make(chan struct{})
-	c.pending[msg.TransactionID] = &pendingCh{done: done, ch: ch}
+	pc := &pendingCh{done: done, ch: ch}
+	c.pending[msg.TransactionID] = pc
 	c.pendingMu.Unlock()
 
 	cancel := func() {
@@ -420,7 +421,10 @@ func (c *Client) send(dest net.Addr, msg *dhcpv6.Message) (<-chan *dhcpv6.Messag
 		close(done)
 
 		c.pendingMu.Lock()
-		if p, ok := c.pending[msg.TransactionID]; ok {
+		// receiveLoop may already have reaped our entry, and another
+		// call may have registered the same ID since: only remove our
+		// own entry.
+		if p, ok := c.pending[msg.TransactionID]; ok && p == pc {
 			close(p.ch)
 			delete(c.pending, msg.TransactionID)
 		}
